@@ -82,6 +82,9 @@ fn c02_direct<const N: usize>() {
 #[kani::proof] #[kani::unwind(6)] fn c02_direct_n4() { c02_direct::<4>() }
 #[kani::proof] #[kani::unwind(7)] fn c02_direct_n5() { c02_direct::<5>() }
 #[kani::proof] #[kani::unwind(8)] fn c02_direct_n6() { c02_direct::<6>() }
+#[kani::proof] #[kani::unwind(11)] fn c02_direct_n9() { c02_direct::<9>() }
+#[kani::proof] #[kani::unwind(14)] fn c02_direct_n12() { c02_direct::<12>() }
+#[kani::proof] #[kani::unwind(19)] fn c02_direct_n17() { c02_direct::<17>() }
 
 #[kani::proof]
 #[kani::should_panic]
